@@ -23,7 +23,7 @@ theorem check_sound (d : Doc) (t v : String) (s sch : List String) (h : check d 
     WellFormed d t v s sch := by
   unfold check at h
   simp only [List.append_eq_nil_iff] at h
-  obtain ⟨⟨⟨⟨⟨⟨⟨⟨h1, h2⟩, h3⟩, h4⟩, h5⟩, h6⟩, h7⟩, h8⟩, h9⟩ := h
+  obtain ⟨⟨⟨⟨⟨⟨⟨⟨⟨h1, h2⟩, h3⟩, h4⟩, h5⟩, h6⟩, h7⟩, h8⟩, h9⟩, h10⟩ := h
   have e1 : (d.ops.all fun op => op.refs.all d.components.contains) = true := of_ite_nil h1
   have e2 : d.componentRefs.all d.components.contains = true := of_ite_nil h2
   have e3 : (d.ops.all fun op =>
@@ -35,6 +35,7 @@ theorem check_sound (d : Doc) (t v : String) (s sch : List String) (h : check d 
   have e7 : (d.title = t && d.version = v) = true := of_ite_nil h7
   have e8 : d.servers = s := of_ite_nil h8
   have e9 : (d.schemes.all sch.contains && sch.all d.schemes.contains) = true := of_ite_nil h9
+  have e10 : d.schemaTypes.all jsonSchemaTypes.contains = true := of_ite_nil h10
   constructor
   · intro op hop r hr
     have := List.all_eq_true.1 e1 op hop
@@ -60,6 +61,8 @@ theorem check_sound (d : Doc) (t v : String) (s sch : List String) (h : check d 
   · intro x
     simp only [Bool.and_eq_true, List.all_eq_true, List.contains_eq_mem, decide_eq_true_eq] at e9
     exact ⟨fun h => e9.1 x h, fun h => e9.2 x h⟩
+  · intro t ht
+    exact List.contains_iff_mem.1 (List.all_eq_true.1 e10 t ht)
 
 /-- the property's path-parameter clause follows, on the model, from what validation guarantees (C10: the
     `{names}` of the full template and the Path parameters are in one-to-one correspondence) together with
@@ -70,6 +73,29 @@ theorem model_path_params (c : Gleece.IR.Controller) (r : Gleece.IR.Route)
   intro s hs hl
   obtain ⟨p, hp, _, _, _, _, h5, _, h7⟩ := Gleece.IR.docParams_sound r s hs
   rw [h7]; exact hreq p hp (h5 ▸ hl)
+
+/-! ### the `type` a schema carries is a JSON Schema type (clause `typesKnown`) -/
+
+/-- the `type` written for a USAGE of Go type `t` (`InterfaceToSchemaRef`: the three values of `ToOpenApiType` that are
+    no JSON Schema types are rewritten - `binary` and `date-time` become `string` with a format, `map` becomes `object`) -/
+def usageType (t : String) : String :=
+  match Gleece.IR.toOpenApiType t with
+  | "binary" => "string"
+  | "date-time" => "string"
+  | "map" => "object"
+  | o => o
+
+/-- **every usage is typed with a JSON Schema type**, whatever the Go type -/
+theorem usageType_known (t : String) : usageType t ∈ jsonSchemaTypes := by
+  unfold usageType Gleece.IR.toOpenApiType
+  repeat' split
+  all_goals first | decide | simp_all [jsonSchemaTypes]
+
+/-- … while `ToOpenApiType` alone is not enough: an ALIAS component is typed with its raw value, so a named type over
+    `time.Time` (or `[]byte`) would say `type: date-time` - the 3.0 pass refuses such a project, and a document that
+    carries it violates `typesKnown` (what seed C08/r11m2 produced for 3.1) -/
+theorem raw_type_of_time_unknown :
+    Gleece.IR.toOpenApiType "time.Time" ∉ jsonSchemaTypes ∧ Gleece.IR.toOpenApiType "[]byte" ∉ jsonSchemaTypes := by decide +kernel
 
 end Gleece.Doc
 
